@@ -166,9 +166,9 @@ PROPS = {
             dict(name="cboundary", workers={Q: 6, T: 6}, cases={Q: 100000, T: 1500000}),
             dict(name="success", workers={Q: 2, T: 2}, cases={Q: 150000, T: 3000000}),
         ],
-        rule=("(report) 13 argument-validating entry points (ClipperD constructor + AddSubject/AddClip/AddOpenSubject, "
+        rule=("(report) 14 argument-validating entry points (ClipperD constructor + AddSubject/AddClip/AddOpenSubject, "
               "BooleanOp/Union/InflatePaths/RectClip/RectClipLines on PathsD, BooleanOp into PolyTreeD, TrimCollinear(PathD), "
-              "ScalePath, MakePath, MakePathD) x precision -20..20 (biased to +-8/+-9) x coordinate magnitudes from 1e-12 to 100 "
+              "ScalePath, the two-scale ScalePaths with independent x and y magnitudes, MakePath, MakePathD) x precision -20..20 (biased to +-8/+-9) x coordinate magnitudes from 1e-12 to 100 "
               "times the range boundary MAX_COORD/scale x zero/non-zero scale x odd/even value counts, each executed on a "
               "build WITH exceptions (Clipper2Exception expected iff an argument is invalid) and on a -fno-exceptions build "
               "linked into the same binary (error code bit and empty result expected); (cboundary) the eight exported "
